@@ -77,6 +77,8 @@ def decide(out, obs, n, st, rule):
     multi = set()
     samples = []
     for o in vlib.read_ndjson(obs):
+        if o.get("outcome") == "notrun":
+            continue
         if o.get("outcome") in ("hang", "abort", "harness_panic"):
             out.fail("NEW", "worker %s while parsing" % o.get("outcome"), o.get("input_case"))
             continue
